@@ -70,3 +70,15 @@ Theorem C08_time_abstraction : waits_governor = (@cons Z 7%Z (@cons Z 7%Z (@cons
 Proof. exact (conj w_governor (conj w_volvo w_engine)). Qed.
 Check C08_time_abstraction : waits_governor = (@cons Z 7%Z (@cons Z 7%Z (@cons Z 7%Z (@nil Z)))) /\ waits_volvo = (@nil Z) /\ waits_engine = (@nil Z).
 Print Assumptions C08_time_abstraction.
+
+(* the governor inside the engine driver model is the source: Governor::next_state as translated from
+   driver/governor.rs on every run computes exactly the model function the theorems above use *)
+Require Import GV.Proofs.C07_source.
+Theorem C08_governor_is_translated_source : forall idle max sig cmd cmd_rpm a,
+  GV.Gen.Consts.governor_translated = true ->
+  next_state_src idle max sig cmd cmd_rpm a = Some (GV.Model.Governor.next_state idle max sig cmd cmd_rpm a).
+Proof. exact next_state_is_the_source. Qed.
+Check C08_governor_is_translated_source : forall idle max sig cmd cmd_rpm a,
+  GV.Gen.Consts.governor_translated = true ->
+  next_state_src idle max sig cmd cmd_rpm a = Some (GV.Model.Governor.next_state idle max sig cmd cmd_rpm a).
+Print Assumptions C08_governor_is_translated_source.
